@@ -40,7 +40,7 @@ def seeded():
                   for m in metas if (m["name"].split("-")[0] if "-" in m["name"] else "r1") == rnd)
         out.append("| %s | %d | %d (%s) | %s |" % (rnd, n, k, ", ".join(names) or "-", "yes" if now else "NO"))
     out.append("")
-    out.append("Rounds: r1 asked for any change that breaks the property; r2-r17 told the sub-agent which functions the")
+    out.append("Rounds: r1 asked for any change that breaks the property; r2-r18 told the sub-agent which functions the")
     out.append("earlier rounds had already changed and asked for a different function, file, clause or kind of mistake.")
     out.append("Every miss was answered by widening a generator or adding an oracle (never by special-casing the change);")
     out.append("the `history` line of each entry says what was missing.")
